@@ -371,7 +371,13 @@ def value_cases(draw):
         st.sampled_from([-1.2345678901234567e-05, 1.2345678901234567e-05,
                          -0.00012345678901234567, 0.1, -7.0])))
         for _ in range(n)]
-    return {'values': values, 'sy': draw(st.sampled_from([0.125, 0.5, 1.0]))}
+    scale = draw(st.sampled_from([1.0, 1.0, 1.0, 1e-100, 1e-120, 1e+100]))
+    if scale != 1.0:
+        # three-digit exponents: every finite value the simulator can print
+        values = [v * scale if abs(v) < 1e6 else scale * 3.7
+                  for v in values]
+    return {'values': values,
+            'sy': draw(st.sampled_from([0.125, 0.5, 1.0])) * scale}
 
 
 def tiny_dataset(values):
